@@ -94,6 +94,7 @@ PROPS = {
         verus=[U("c10_solver_tables", ["C10.V.solver_tables.full_enumerates (the multi-threaded unsampled solver is built over the same enumerating chance entries as the single-threaded one)"]),
                U("c06_generic_multi_fresh", ["C06.V.solve_generic_multi.workspace_fresh"]),
                U("c06_threshold_player_step", ["C06.V.thread_threshold.frontier_reach", "C06.V.thread_threshold.frontier_reach_chance"]),
+               U("c06_worker_task", ["C06.V.worker_task.own_entry (a worker evaluates ITS frontier entry -- own node, own reach values, shared tables, empty cache -- and files the payoff under that node's address)"]),
                U("c06_threshold_loop", ["C06.V.thread_threshold.frontier_is_a_cut (the whole expansion loop: queue+work+passed terminals conserve every additive functional of the sequential traversal -- no subtree twice, none lost)"]),
                U("c06_recurse_multi_cache", ["C06.V.recurse_multi.cache_hit", "C06.V.recurse_multi.miss_traverses", "C06.V.cached_payoff.unit_is_empty"]),
                U("c08_recurse_single_player_arm", ["C08.V.recurse_single.player_arm (one visit of a decision node: the single-threaded statement)"]),
@@ -127,6 +128,7 @@ PROPS = {
                U("c10_sampled_chance", ["C10.V.sampled_chance.cache_hit", "C10.V.sampled_chance.reset"]),
                U("c10_external_next", ["C10.V.external.chance_next (the draw made at the first visit is the one every later visit of the pass follows)", "C10.V.external.next_update"]),
                U("c07_external_next_nodes", ["C07.V.next_nodes.sampled_walk (the frontier walk follows exactly the sampled outcome / sampled action down to the pass's own player)", "C07.V.next_nodes.draws_kept (at most one sample per infoset per pass)"]),
+               U("c06_worker_task", ["C07.V.worker_task.own_entry (external solver: same FIRST, updating player's table as the active one)", "C06.V.worker_task.own_entry (chance-sampled parallel path)"]),
                U("c07_external_threshold_loop", ["C07.V.external_thread_threshold.frontier_is_a_cut (the whole frontier loop of the external-sampled parallel path: queue+work+reached terminals are a cut of the SAMPLED tree -- visited exactly once)", "C07.V.external_thread_threshold.draws_kept"]),
                U("c10_cached_infoset", ["C10.V.cached_infoset.cache_hit"]),
                U("c08_advance_order", ["C10.V.cached_infoset.advance_resets_draw"])],
